@@ -1,4 +1,5 @@
 import HapVerif.Model.C12
+import HapVerif.Model.C12Rot
 import HapVerif.Drv.Common
 /-!
 Driver for C12.
@@ -13,6 +14,10 @@ content V, `F` config.Clear(), `GL.H` custom responses of the global config (Lua
 based content H, 0 = none), `u[:fault]` HAProxyUpdate, `q[:fault]` one run of the reload queue
 worker.  faults: `tm fm bm cl ef lr mc sh<k> rs rr ad<i>+<j>.. ab<i>+<j>..` (`ef` the errorfile, `lr`
 responses.lua).
+`O<k>` as FIRST op: the instance rotates haproxy.cfg and the shard files (`--max-old-config-files k`); faults
+`mn mo mw` are the rotation rename / the removal of the oldest copy / the write inside the rotated write of
+haproxy.cfg (Model/C12Rot.lean), all of them `Fault.mainCfg` for the fault cycle model; with rotation on every
+observation ends with `|k<copies>` (stripped before the comparison, judged by `C12Rot.rotClause`).
 One observation per u/q op:
 `e<err>|items|hosts|tcp want|file=ents,..|maps|tcpmap.tcpcrt.tcpmain|running backends|running maps|running tcp|pending|`
 `global lua.ha|errorfile.lua.cfg on disk|errorfile.lua.cfg as loaded` (`-` = no such file; cfg: 1 = haproxy.cfg
@@ -37,6 +42,10 @@ def parseFault (s : String) : Option Fault :=
   else if s = "bm" then some .backMaps
   else if s = "cl" then some .crtLists
   else if s = "mc" then some .mainCfg
+  -- the three fault points inside the ROTATED write of haproxy.cfg (Model/C12Rot.lean: rename, removal of the
+  -- oldest copy, write); the harness arms them so that the write of haproxy.cfg fails, which is all the fault
+  -- cycle model distinguishes (`C12Rot.failed_write_keeps_or_loses_file`, `failed_write_owes_rewrite`)
+  else if s = "mn" || s = "mo" || s = "mw" then some .mainCfg
   else if s = "rs" then some .reloadSend
   else if s = "rr" then some .reloadResult
   else if s.startsWith "sh" then ((s.drop 2).toString.toNat?).map .shard
@@ -299,7 +308,39 @@ def hostsNeverEmptied {p : Nat} (ro : ROpt) (sh : Sh p) : RW p → List (REv p) 
         !(w.fw.mainHosts || hasHosts w.fw.h) || hasHosts w'.fw.h || !(anyFin fun x => (w'.fw.h.maps x).isSome)
       else true) && hostsNeverEmptied ro sh w' es
 
-def handleInst (q n shards ops : String) (impl : String) : Verdict :=
+/-- `O<k>` as first op: the instance runs with `--max-old-config-files=k` -/
+def splitRot (ops : String) : Nat × String :=
+  match ops.splitOn "," with
+  | o :: rest =>
+    if o.startsWith "O" then (((o.drop 1).toString.toNat?).getD 0, ",".intercalate rest) else (0, ops)
+  | [] => (0, ops)
+
+/-- the trailing `|k<copies>` field of an observation (only there when rotation is on) -/
+def stripCopies (s : String) : String × Option Nat :=
+  let fs := s.splitOn "|"
+  match fs.getLast? with
+  | some l =>
+    if l.startsWith "k" then ("|".intercalate fs.dropLast, (l.drop 1).toString.toNat?) else (s, none)
+  | none => (s, none)
+
+/-- Spec of the rotated copies: after every HAProxyUpdate that returned no error at most `rot` of them exist
+(`C12Rot.settled`, last conjunct); with rotation on every observation must carry the count -/
+def rotTrace {p : Nat} (rot : Nat) : List (REv p) → List (IObs × Option Nat) → Option String
+  | [], _ => none
+  | _, [] => none
+  | e :: es, (o, k) :: os =>
+    if !e.isRun then rotTrace rot es ((o, k) :: os) else
+    match k with
+    | none => if rot = 0 then rotTrace rot es os else some "unparsable-implementation-output"
+    | some c =>
+      match (if e.isUpd && !o.err then C12Rot.rotClause rot c else none) with
+      | some cl => some cl
+      | none => rotTrace rot es os
+
+def handleInst (q n shards ops0 : String) (impl0 : String) : Verdict :=
+  let (rot, ops) := splitRot ops0
+  let stripped := (impl0.splitOn ";").map stripCopies
+  let impl := if impl0.startsWith "PANIC" then impl0 else ";".intercalate (stripped.map (·.1))
   match n.toNat?, parseList parseNat? shards "." with
   | some n, some shl =>
     let p := shl.length
@@ -317,7 +358,11 @@ def handleInst (q n shards ops : String) (impl : String) : Verdict :=
       | some obs =>
         let disc := allOkR ro sh {} evs && hostsNeverEmptied ro sh {} evs
         { model := m, agree := m == impl
-          oracle := if disc then specTrace ro.o.queue sh.files shardOfN none none false evs obs else none
+          oracle := if disc then
+              (match specTrace ro.o.queue sh.files shardOfN none none false evs obs with
+               | some c => some c
+               | none => rotTrace rot evs (obs.zip (stripped.map (·.2))))
+            else none
           trivial := !disc || !(evs.any fun e => e.isRun && !e.clean) }
   | _, _ => bad "args"
 
